@@ -60,6 +60,12 @@ func validate(thr float64, mr, tr, ow, w, iv int64) bool {
 }
 
 func genValidate(r *gen.Rand, n int) {
+	// the read side of a configuration (the only one a client can make itself is the zero value)
+	z := &cb.CircuitBreakerConfig{}
+	okz := z.GetName() == nil && z.GetFailureRateThreshold() == 0 && z.GetMinimumRequestThreshold() == 0 && z.GetTrialRequestInterval() == 0 &&
+		z.GetCircuitOpenWindow() == 0 && z.GetCounterSlidingWindow() == 0 && z.GetCounterUpdateInterval() == 0 && len(z.Getlisteners()) == 0 &&
+		strings.Contains(z.String(), "failureRateThreshold: 0.000") && z.Validate() != nil
+	emit("apicheck", "zero-config-getters", b2s(okz))
 	durs := []int64{-1, 0, 1, 2, 3, 1000, math.MaxInt64, math.MaxInt64 - 1, math.MinInt64}
 	// every palette threshold with a valid and a few invalid duration tuples
 	for _, thr := range gen.Float64Palette {
@@ -124,6 +130,10 @@ func viaBuilder(conf func(*retry.BackoffBuilder)) string {
 func ff(m float64) string { return strconv.FormatFloat(m, 'g', -1, 64) }
 
 func genCtors(r *gen.Rand, n int) {
+	// wrappers need something to wrap
+	lb, e1 := retry.NewAttemptLimitingBackoff(nil, 3)
+	jb, e2 := retry.NewJitterAddingBackoff(nil, 0, 0.5)
+	emit("apicheck", "nil-delegate-refused", b2s(e1 != nil && e2 != nil && lb == nil && jb == nil))
 	ints := []int64{math.MinInt64, -2, -1, 0, 1, 2, 200, 10000, math.MaxInt64 - 1, math.MaxInt64}
 	for _, i := range ints {
 		_, e := retry.NewFixedBackoff(i)
